@@ -13,7 +13,7 @@ CONFIG = {
                        "default-scheduler tripwire. Sampling is the honest level: the schedule space is unbounded."),
         "level_note": ("Trusted: Dask graph construction and dask.local.get_async (real code), NumPy/SciPy kernels; tasks "
                        "are atomic (no pre-emption inside a task except pulsarbat frames in the pre-emptive sub-mode); "
-                       "values compared bit-for-bit, alarm only above tau = 64 eps (1+log2 N) max|ref| per op."),
+                       "values compared bit-for-bit (99.8 % identical on the unchanged tree), alarm only above tau = eps max|ref| (4 + 16 (1+log2 N) per FFT-based operation in the pipeline)."),
         "quick_runs": 24000,
         "thorough_runs": 150000,
         "quick_wall_cap": 300,
